@@ -207,4 +207,7 @@ def check(run, prog):
         sh = elems[0] if not shp else NdArr(shp, elems)
         return [z, sh], {}
     run_coverage(ck, prog, fi, "R2", make_args, n_time, lambda arr: "FFTSHIFT" in str(arr.expr) or "Opq" in str(arr.expr), "freq_shift (values in bins)")
+    # the FFT routines work on (views of) the caller's data: they must never be given permission to overwrite their operand
+    from ..structural import overwrite_report
+    overwrite_report(ck, prog, "R1")
     run.extra["decided_by"] = ck.how
